@@ -375,3 +375,76 @@ Proof.
   - reflexivity.
   - reflexivity.
 Qed.
+
+(* ---- every position the servo is ever commanded to ---- *)
+
+(* the invariant, read on one level event under the calibration of s *)
+Definition sev_ok (s : servo) (e : sev) : Prop :=
+  match e with
+  | SLvl a p => (min_a s <= a /\ a <= max_a s) /\ (min_p s <= p /\ p <= max_p s) /\
+                p == a2p s a /\ a == p2a s p
+  end.
+
+Lemma sev_ok_config s s' e : same_config s s' -> sev_ok s e -> sev_ok s' e.
+Proof.
+  intros (_ & E1 & E2 & E3 & E4). destruct e as [a p]. unfold sev_ok, a2p, p2a.
+  rewrite E1, E2, E3, E4. intro H. exact H.
+Qed.
+
+Lemma step_sev s op :
+  servo_cfg_ok s -> servo_inv s -> Forall (sev_ok s) (sevents (sstep s op)).
+Proof.
+  intros Hc Hi.
+  pose proof (step_inv s op Hc Hi) as Hi'. pose proof (step_config s op) as Hcfg.
+  pose proof (servo_events s op) as He. cbn zeta in He.
+  assert (Hnew : sev_ok s (SLvl (cur_a (sstate (sstep s op))) (cur_p (sstate (sstep s op))))).
+  { destruct Hcfg as (_ & E1 & E2 & E3 & E4). unfold sev_ok, servo_inv, a2p, p2a in *.
+    rewrite E1, E2, E3, E4 in Hi'. exact Hi'. }
+  destruct op as [v|v| |].
+  - revert He. destruct (sresult (sstep s (SWrite v))); intro He; rewrite He;
+      [constructor; [exact Hnew | constructor] | constructor].
+  - revert He. destruct (sresult (sstep s (SWriteUs v))); intro He; rewrite He;
+      [constructor; [exact Hnew | constructor] | constructor].
+  - rewrite He. constructor.
+  - rewrite He. constructor.
+Qed.
+
+(* every position any history ever commands lies inside both ranges and on the configured line *)
+Lemma trace_sev ops : forall s, servo_cfg_ok s -> servo_inv s -> Forall (sev_ok s) (strace ops s).
+Proof.
+  induction ops as [|op ops IH]; intros s Hc Hi.
+  - constructor.
+  - cbn [strace]. apply Forall_app. split; [apply step_sev; assumption|].
+    pose proof (step_config s op) as Hcfg.
+    assert (Hcfg' : same_config (sstate (sstep s op)) s).
+    { destruct Hcfg as (A0 & A1 & A2 & A3 & A4). unfold same_config. repeat split; symmetry; assumption. }
+    eapply Forall_impl; [intros e He; exact (sev_ok_config _ _ e Hcfg' He)|].
+    apply IH; [exact (cfg_ok_config _ _ Hcfg Hc) | apply step_inv; assumption].
+Qed.
+
+Lemma trace_sev_reachable a s0 pre ops :
+  servo_ctor a = inl s0 -> Forall (sev_ok s0) (strace ops (srun pre s0)).
+Proof.
+  intro H. destruct (servo_reachable_inv a s0 pre H) as (Hi & Hcfg & Hc).
+  assert (Hcfg' : same_config (srun pre s0) s0).
+  { destruct Hcfg as (A0 & A1 & A2 & A3 & A4). unfold same_config. repeat split; symmetry; assumption. }
+  eapply Forall_impl; [intros e He; exact (sev_ok_config _ _ e Hcfg' He)|].
+  apply trace_sev; [exact (cfg_ok_config _ _ Hcfg Hc) | exact Hi].
+Qed.
+
+(* one level event per successful write, none for getters and failing calls *)
+Definition swrites_ok (s : servo) (op : sop) : bool :=
+  match op, sresult (sstep s op) with
+  | (SWrite _ | SWriteUs _), Ok _ => true
+  | _, _ => false
+  end.
+
+Lemma step_sev_count s op : length (sevents (sstep s op)) = if swrites_ok s op then 1%nat else 0%nat.
+Proof.
+  pose proof (servo_events s op) as He. cbn zeta in He. unfold swrites_ok.
+  destruct op as [v|v| |].
+  - revert He. destruct (sresult (sstep s (SWrite v))); intro He; rewrite He; reflexivity.
+  - revert He. destruct (sresult (sstep s (SWriteUs v))); intro He; rewrite He; reflexivity.
+  - rewrite He. reflexivity.
+  - rewrite He. reflexivity.
+Qed.
